@@ -225,7 +225,10 @@ def translate_enforce(fn):
         raise TranslateError('enforce: recursive call keywords ' + t2.src(rec))
     if not (isinstance(kw['diag'], ast.Constant) and kw['diag'].value == 0):
         raise TranslateError('enforce: recursive diag ' + t2.src(kw['diag']))
-    _expect(inner.orelse[0], 'bout = b if overwrite else b.copy()', 'enforce rhs copy')
+    # the working copy of the right-hand side: a copy unless overwrite (and, in the promoting form, equal dtype); the
+    # dtype promotion b -> result_type(b, x) is a runtime matter (oracle: complex prescribed values with a real b)
+    _expect_any(inner.orelse[0], ['bout = b if overwrite else b.copy()',
+                                  'bout = b.astype(np.result_type(b, x), copy=not overwrite)'], 'enforce rhs copy')
     mv2 = MvTr({'bout': ('b', 'vec'), 'x': ('x', 'vec'), 'D': ('D', 'idx')})
     mv2.stmt(inner.orelse[1])
     rhs_def = ('Definition gen_enforce_rhs (b x : vec) (D : list nat) : vec :=\n  ' + mv2.close(mv2.env['bout'][0]) + '.')
@@ -548,14 +551,26 @@ def translate_penalize(fn):
         mv.stmt(s)
     mdef = 'Definition gen_penalize_matrix (M : mat) (D : list nat) (w : R) : mat :=\n  ' + mv.close(mv.env['Aout'][0]) + '.'
     _expect(body[6], 'if b is None:\n    return Aout', 'penalize b None')
-    _expect(body[7], 'bout = b if overwrite else b.copy()', 'penalize rhs copy')
-    blk = body[8]
-    if not (isinstance(blk, ast.If) and t2.src(blk.test) == 'not isinstance(b, spmatrix)' and not blk.orelse and len(blk.body) == 1):
-        raise TranslateError('penalize rhs block')
+    if len(body) == 10:
+        _expect(body[7], 'bout = b if overwrite else b.copy()', 'penalize rhs copy')
+        blk = body[8]
+        if not (isinstance(blk, ast.If) and t2.src(blk.test) == 'not isinstance(b, spmatrix)' and not blk.orelse and len(blk.body) == 1):
+            raise TranslateError('penalize rhs block')
+        upd = blk.body[0]
+    elif len(body) == 9:
+        # mass matrix: plain copy; vector: copy with the dtype promoted to that of the prescribed values
+        blk = body[7]
+        if not (isinstance(blk, ast.If) and t2.src(blk.test) == 'isinstance(b, spmatrix)' and len(blk.body) == 1 and len(blk.orelse) == 2):
+            raise TranslateError('penalize rhs block')
+        _expect(blk.body[0], 'bout = b if overwrite else b.copy()', 'penalize mass matrix copy')
+        _expect(blk.orelse[0], 'bout = b.astype(np.result_type(b, x), copy=not overwrite)', 'penalize rhs copy')
+        upd = blk.orelse[1]
+    else:
+        raise TranslateError(f'penalize: {len(body)} statements')
     mv2 = MvTr({'bout': ('b', 'vec'), 'x': ('x', 'vec'), 'D': ('D', 'idx'), 'epsilon': ('w', 'invw')})
-    mv2.stmt(blk.body[0])
+    mv2.stmt(upd)
     rdef = 'Definition gen_penalize_rhs (b x : vec) (D : list nat) (w : R) : vec :=\n  ' + mv2.close(mv2.env['bout'][0]) + '.'
-    _expect(body[9], 'return (Aout, bout)', 'penalize return')
+    _expect(body[-1], 'return (Aout, bout)', 'penalize return')
     return [mdef, rdef]
 
 
